@@ -247,9 +247,35 @@ def check_source(label, src, acc: Acc):
         acc.outcomes.add(len(dot))
 
 
+def check_one_of_each(acc: Acc):
+    from numba_scfg.rendering.rendering import SCFGRenderer
+    from ..families import one_of_each_type
+    scfg, types = one_of_each_type()
+    seen = set()
+
+    def report(clause, detail, site=""):
+        if clause in seen:
+            return
+        seen.add(clause)
+        acc.viol(PROP, f"{PROP}/each-type/{clause}", f"graph with one block of every registered type: {detail}", ("one-of-each",),
+                 site=site or "one-of-each", case={"kind": "one-of-each"})
+    try:
+        dot = SCFGRenderer(scfg).render_scfg().source
+    except Exception as e:  # noqa: BLE001
+        et, site = exc_fingerprint(e)
+        report(f"render-raises/{et}", f"SCFGRenderer raised {et}: {str(e)[:100]} at {site}", site=site)
+        return
+    check_dot(dot, scfg, report, "→")
+    acc.states += 1
+    acc.counters["one_of_each_type_renderings"] += 1
+
+
 def _work(chunk):
     acc = Acc()
     for label, src in chunk:
+        if label == "EACH":
+            check_one_of_each(acc)
+            continue
         if label.startswith("TEXT/"):
             check_source(label, src, acc)
         else:
@@ -265,7 +291,8 @@ def run(tier: str, seed: int):
         progs = [p for i, p in enumerate(progs)]
     from ..progs import all_target_programs
     texts = [(f"TEXT/{k}", v) for k, v in TEXT_PROGRAMS.items()] + [(f"TEXT/{k}", v) for k, v in all_target_programs()]
-    for r in shard_map(_work, [progs[i:i + 200] for i in range(0, len(progs), 200)] + [texts[i:i + 10] for i in range(0, len(texts), 10)]):
+    for r in shard_map(_work, [progs[i:i + 200] for i in range(0, len(progs), 200)] + [texts[i:i + 10] for i in range(0, len(texts), 10)]
+                       + [[("EACH", "")]]):
         acc.merge(r)
     cov = {"rule": "SCFGRenderer DOT source of every closed CFG (plain and AST payload) x {input, J, JL, JLB}, and ByteFlowRenderer DOT source of "
                    "every skeleton function's bytecode graph at the same prefixes, parsed and compared with the hierarchy: nodes, cluster tree, "
@@ -278,7 +305,9 @@ def run(tier: str, seed: int):
 
 def replay(case) -> Acc:
     acc = Acc()
-    if case.get("kind") == "source":
+    if case.get("kind") == "one-of-each":
+        check_one_of_each(acc)
+    elif case.get("kind") == "source":
         check_source(case["label"], case["source"], acc)
     elif case.get("kind") == "function":
         check_function(case["label"], case["source"], acc)
